@@ -625,7 +625,7 @@ Section Histories.
     - destruct (serveV_ok c hs now r I) as (st' & rp & lg & calls & E & I' & Hs). rewrite E.
       exists st', now, (ObReply rp lg), calls. split; [reflexivity|]. split; assumption.
     - eexists; eexists; eexists; eexists. split; [reflexivity|]. cbn [fst]. split; [|reflexivity].
-      unfold vclear_page. apply InvV_remove, InvV_remove, I.
+      unfold vclear_page, vclear_uri. destruct (redirect_target r); repeat apply InvV_remove; exact I.
     - eexists; eexists; eexists; eexists. split; [reflexivity|]. cbn [fst]. split; [apply InvV_nil | reflexivity].
     - eexists; eexists; eexists; eexists. split; [reflexivity|]. cbn [fst]. split; [exact I | reflexivity].
   Qed.
@@ -872,23 +872,31 @@ Section RefinesMap.
     - destruct (serve_refines c s hs now r0 HR Ho) as (c' & E & R'). rewrite E.
       destruct (specServe s hs r0) as [[[[s' hs'] rp] lg] calls]. cbn [fst snd] in *.
       exists c'. split; [reflexivity | exact R'].
-    - cbn [fst snd]. pose proof HR as [Hpq Hp].
-      destruct (key_pq_is_pq r) as (s0 & i & Epq). rewrite Epq, Hpq. unfold key_p.
-      exists (vclear_page r c). split.
-      + f_equal. f_equal. f_equal. f_equal. specialize (Hp (rq_path r)).
-        destruct (pc_find (KPath (rq_path r)) c) as [e|]; [destruct Hp as (_ & _ & _ & -> & _) | rewrite Hp]; reflexivity.
-      + unfold vclear_page. rewrite Epq. unfold key_p. split.
-        * intros s1 i1. rewrite !pc_find_remove. cbn [key_eqb].
-          destruct (beq s1 s0 && Nat.eqb i1 i); apply Hpq || reflexivity.
-        * intros q. rewrite !pc_find_remove. cbn [key_eqb].
-          destruct (beq q (rq_path r)) eqn:Eq.
-          -- apply beq_eq in Eq. subst q. apply seen_has_page_clear_same.
-          -- specialize (Hp q). destruct (pc_find (KPath q) c) as [e|].
-             ++ destruct Hp as (S0 & R0 & L0 & H0 & F0). unfold page_rel.
-                split; [exact S0|]. split; [exact R0|]. split; [exact L0|]. split.
-                ** rewrite seen_has_page_clear_other by exact Eq. exact H0.
-                ** intros t. rewrite seen_find_clear_other by exact Eq. apply F0.
-             ++ rewrite seen_has_page_clear_other by exact Eq. exact Hp.
+    - cbn [fst snd].
+      (* one URI: the keys of [r1] against the page [rq_path r1] *)
+      assert (HU : forall r1 c1 s1, RelS c1 s1 ->
+                vhas_uri r1 c1 = seen_has_page (rq_path r1) s1 /\
+                RelS (vclear_uri r1 c1) (seen_clear (rq_path r1) s1)).
+      { intros r1 c1 s1 [Hpq Hp]. destruct (key_pq_is_pq r1) as (s0 & i & Epq). split.
+        - unfold vhas_uri. rewrite Epq, Hpq. unfold key_p. specialize (Hp (rq_path r1)).
+          destruct (pc_find (KPath (rq_path r1)) c1) as [e|]; [destruct Hp as (_ & _ & _ & -> & _) | rewrite Hp]; reflexivity.
+        - unfold vclear_uri. rewrite Epq. unfold key_p. split.
+          * intros s2 i1. rewrite !pc_find_remove. cbn [key_eqb].
+            destruct (beq s2 s0 && Nat.eqb i1 i); apply Hpq || reflexivity.
+          * intros q. rewrite !pc_find_remove. cbn [key_eqb].
+            destruct (beq q (rq_path r1)) eqn:Eq.
+            -- apply beq_eq in Eq. subst q. apply seen_has_page_clear_same.
+            -- specialize (Hp q). destruct (pc_find (KPath q) c1) as [e|].
+               ++ destruct Hp as (S0 & R0 & L0 & H0 & F0). unfold page_rel.
+                  split; [exact S0|]. split; [exact R0|]. split; [exact L0|]. split.
+                  ** rewrite seen_has_page_clear_other by exact Eq. exact H0.
+                  ** intros t. rewrite seen_find_clear_other by exact Eq. apply F0.
+               ++ rewrite seen_has_page_clear_other by exact Eq. exact Hp. }
+      exists (vclear_page r c). unfold vclear_page, vpage_cleared.
+      destruct (HU r c s HR) as [H1 R1].
+      destruct (redirect_target r) as [r'|]; cbn [fst snd].
+      + destruct (HU r' _ _ R1) as [H2 R2]. rewrite H1, H2. split; [reflexivity | exact R2].
+      + rewrite H1, orb_false_r. split; [reflexivity | exact R1].
     - cbn [fst snd]. exists []. split; [reflexivity | apply RelS_nil].
     - cbn [fst snd]. exists c. split; [reflexivity | exact HR].
   Qed.
@@ -1277,12 +1285,22 @@ Section RefinesAssoc.
     intros I H. destruct o as [r0 | r | | ms]; cbn [stepV step].
     - destruct (serve_rel cV c hs now r0 I H) as (cV' & c' & hs' & rp & lg & calls & E1 & E2 & H'). rewrite E1, E2.
       eexists; eexists; eexists; eexists; eexists; eexists. split; [reflexivity|]. split; [reflexivity | exact H'].
-    - pose proof (find_rel_none (key_pq r) cV c H) as N1. pose proof (find_rel_none (key_p r) cV c H) as N2.
-      eexists; eexists; eexists; eexists; eexists; eexists. split; [reflexivity|]. split.
-      + f_equal. f_equal. f_equal.
-        destruct (pc_find (key_pq r) cV), (c_find (key_pq r) c); try discriminate;
-          destruct (pc_find (key_p r) cV), (c_find (key_p r) c); try discriminate; reflexivity.
-      + unfold vclear_page, clear_page. apply cache_rel_remove, cache_rel_remove, H.
+    - assert (HU : forall r1 cV1 c1, cache_rel cV1 c1 ->
+                vhas_uri r1 cV1 = has_uri r1 c1 /\ cache_rel (vclear_uri r1 cV1) (clear_uri r1 c1)).
+      { intros r1 cV1 c1 H1.
+        pose proof (find_rel_none (key_pq r1) cV1 c1 H1) as N1. pose proof (find_rel_none (key_p r1) cV1 c1 H1) as N2.
+        split.
+        - unfold vhas_uri, has_uri.
+          destruct (pc_find (key_pq r1) cV1), (c_find (key_pq r1) c1); try discriminate;
+            destruct (pc_find (key_p r1) cV1), (c_find (key_p r1) c1); try discriminate; reflexivity.
+        - unfold vclear_uri, clear_uri. apply cache_rel_remove, cache_rel_remove, H1. }
+      destruct (HU r cV c H) as [E1 R1].
+      unfold vclear_page, vpage_cleared, clear_page, page_cleared.
+      destruct (redirect_target r) as [r'|].
+      + destruct (HU r' _ _ R1) as [E2 R2]. rewrite E1, E2.
+        eexists; eexists; eexists; eexists; eexists; eexists. split; [reflexivity|]. split; [reflexivity | exact R2].
+      + rewrite E1.
+        eexists; eexists; eexists; eexists; eexists; eexists. split; [reflexivity|]. split; [reflexivity | exact R1].
     - eexists; eexists; eexists; eexists; eexists; eexists. split; [reflexivity|]. split; [reflexivity | apply cache_rel_nil].
     - eexists; eexists; eexists; eexists; eexists; eexists. split; [reflexivity|]. split; [reflexivity | exact H].
   Qed.
